@@ -213,6 +213,13 @@ pub fn run(tier: &str) -> i32 {
     rep.assume("directory trees deeper than 3 and more than a few thousand entries are outside the enumerated alphabet (fixtures reach 1.4M tiles)");
     // the full product is cheap enough for every tier; thorough adds longer directories
     let mut specs = product(true);
+    // long directories (thousands of entries) in a slice of the layouts
+    for (i, mut s) in product(false).into_iter().filter(|s| s.n == 7 && s.meta == 2).enumerate() {
+        if i % 16 == 0 {
+            s.n = 2500;
+            specs.push(s);
+        }
+    }
     if thorough {
         for mut s in product(false).into_iter().filter(|s| s.n == 7) {
             s.n = 40;
